@@ -80,25 +80,31 @@ Theorem C06_pointer_position_unscaled : forall cfg c x y,
   c_sw c = g_w cfg -> c_sh c = g_h cfg -> map_pos cfg c x y = Some (x, y).
 Proof. exact map_pos_unscaled. Qed.
 
-(* ... and for a client scaled by an integer factor n the binary64 computation of
-   ScaleX/ScaleY yields x*n or x*n-1 (finite sweep: from-width 1..128, n 1..8, x inside).
-   "mapped back to unscaled coordinates" in the strict sense (x*n) is refuted: *)
-Theorem C06_pointer_unscale_partial : forall fw n x, 1 <= fw <= 128 -> 1 <= n <= 8 -> 0 <= x < fw ->
-  exists v, scale_d x fw (fw * n) = Some v /\ (v = x * n \/ v = x * n - 1).
-Proof. exact scale_within_one. Qed.
-
-(* the model's [map_pos] uses [scale_v]: the code as it is ([scale_d]) or, when the library
-   contains the repair notes/fix_C06_2.diff, the exact quotient *)
-Theorem C06_pointer_unscale_as_is : forall cfg x fw tw,
-  fix_scale cfg = false -> scale_v cfg x fw tw = scale_d x fw tw.
-Proof. exact scale_v_asis. Qed.
-
-Theorem C06_pointer_unscale_repaired : forall cfg x fw tw, fix_scale cfg = true -> 0 < fw ->
+(* ... and for a scaled client (SetScale / PalmVNCSetScaleFactor, view of width fw > 0 on a screen
+   of width tw) it is the exact quotient x*tw/fw, i.e. the position mapped back to unscaled
+   framebuffer coordinates (the code as it is: ScaleX/ScaleY multiply before dividing, c7c2b1b) *)
+Theorem C06_pointer_unscale : forall cfg x fw tw, fix_scale cfg = true -> 0 < fw ->
   scale_v cfg x fw tw = Some (x * tw / fw).
 Proof. exact scale_v_fixed. Qed.
 
-(* full statement (does not hold):  forall x fw n, scale_d x fw (fw*n) = Some (x*n) *)
-Theorem C06_pointer_unscale_refuted : scale_d 29 100 200 = Some 57 /\ 29 * 200 / 100 = 58.
+Example C06_pointer_unscale_nonvacuous :
+  let cfg := mkCfg 200 100 false 0 false false false 0 false 0 in
+  fix_scale cfg = true /\
+  map_pos cfg (set_scaled (new_client cfg 1 false) 100 50) 29 29 = Some (58, 58).
+Proof. vm_compute. split; reflexivity. Qed.
+
+(* regression witnesses: the former formula (int)(((double)x/from)*to) (variant bit 1), an exact
+   integer emulation of the binary64 arithmetic: 29 on a half-size view of 200 came out as 57;
+   within the swept range (from-width 1..128, factor 1..8, x inside) it is x*n or x*n-1 *)
+Theorem C06_pointer_unscale_legacy : forall cfg x fw tw,
+  fix_scale cfg = false -> scale_v cfg x fw tw = scale_d x fw tw.
+Proof. exact scale_v_asis. Qed.
+
+Theorem C06_pointer_unscale_legacy_within_one : forall fw n x, 1 <= fw <= 128 -> 1 <= n <= 8 -> 0 <= x < fw ->
+  exists v, scale_d x fw (fw * n) = Some v /\ (v = x * n \/ v = x * n - 1).
+Proof. exact scale_within_one. Qed.
+
+Theorem C06_pointer_unscale_legacy_witness : scale_d 29 100 200 = Some 57 /\ 29 * 200 / 100 = 58.
 Proof. exact scale_not_exact. Qed.
 
 (* ---- gating ---------------------------------------------------------------------------
@@ -194,11 +200,32 @@ Example C06_cut_text_limit_nonvacuous :
 Proof. vm_compute. split; reflexivity. Qed.
 
 (* ---- pointer coalescing (deferPtrUpdateTime > 0) --------------------------------------
-   full statement (does not hold): "once every interval has expired, the last callback carries
-   the position and mask of the last PointerEvent sent".
-   What holds: a message with an unchanged button mask is remembered (overwriting any earlier
-   remembered position) and the remembered position is flushed exactly once after the interval. *)
-Theorem C06_ptr_coalescing_partial : forall ext_cut cfg o c mask x y x' y',
+   "where it is on, the last position within each interval must be delivered": after ANY
+   sequence of PointerEvents of a permitted client (the code as it is, 4105625), the last message
+   is either the last callback made - and then nothing is remembered - or it is exactly what is
+   remembered; and what is remembered is delivered exactly once when its interval has expired
+   ([C06_ptr_coalescing_flush]).  So the last callback always carries the mask and position of
+   the last message sent, never a stale one. *)
+Theorem C06_ptr_coalescing : forall ext_cut cfg ms o c mask x y x' y',
+  fix_defer cfg = true ->
+  ptr_allowed o (c_id c) = true -> c_viewonly c = false -> map_pos cfg c x y = Some (x', y') ->
+  let '(c2, o2, evs) := feed_ptr ext_cut cfg o c (ms ++ [(mask, x, y)]) in
+  (p_lastx (c_ptr c2) = -1 /\ exists pre, evs = pre ++ [EvPtr (c_id c) mask x' y']) \/
+  (p_lastbtn (c_ptr c2) = mask /\ p_lastx (c_ptr c2) = x' /\ p_lasty (c_ptr c2) = y').
+Proof. exact defer_last. Qed.
+
+(* one message: delivered at once (nothing stays remembered) or remembered (replacing any older) *)
+Theorem C06_ptr_coalescing_step : forall ext_cut cfg o c mask x y x' y',
+  fix_defer cfg = true ->
+  ptr_allowed o (c_id c) = true -> c_viewonly c = false -> map_pos cfg c x y = Some (x', y') ->
+  let a := apply_normal ext_cut cfg o c (MPtr mask x y) in
+  (a_events a = [EvPtr (c_id c) mask x' y'] /\ p_lastx (c_ptr (a_client a)) = -1 /\
+   p_lastbtn (c_ptr (a_client a)) = mask) \/
+  (a_events a = [] /\ p_lastbtn (c_ptr (a_client a)) = mask /\
+   p_lastx (c_ptr (a_client a)) = x' /\ p_lasty (c_ptr (a_client a)) = y').
+Proof. exact defer_step. Qed.
+
+Theorem C06_ptr_coalescing_remembered : forall ext_cut cfg o c mask x y x' y',
   ptr_allowed o (c_id c) = true -> c_viewonly c = false -> g_deferptr cfg <> 0 ->
   mask = p_lastbtn (c_ptr c) -> map_pos cfg c x y = Some (x', y') ->
   let a := apply_normal ext_cut cfg o c (MPtr mask x y) in
@@ -213,16 +240,15 @@ Theorem C06_ptr_coalescing_flush : forall cfg now c,
   p_lastx (c_ptr (fst (flush_ptr cfg now c))) = -1.
 Proof. exact defer_flush. Qed.
 
-(* refuted: press at (84,77), drag to (72,74), release at (31,3): the application sees the
-   release at (31,3) and THEN a motion to the stale (72,74) *)
-Theorem C06_ptr_coalescing_refuted :
-  exists ops, snd (c06_run (init_server (mkCfg 100 80 false 0 false false false 999 false 0)) ops)
-              = [EvPtr 0 1 84 77; EvPtr 0 0 31 3; EvPtr 0 0 72 74].
-Proof. exists defer_witness_ops. exact defer_stale_witness. Qed.
-
-(* the same session against a library with the repair notes/fix_C06_1.diff (variant bit 0):
-   the remembered position is dropped when a newer event is delivered *)
-Theorem C06_ptr_coalescing_repaired_witness :
-  snd (c06_run (init_server (mkCfg 100 80 false 0 false false false 999 false 1)) defer_witness_ops)
+(* whole session, the code as it is: press at (84,77), drag to (72,74), release at (31,3) *)
+Example C06_ptr_coalescing_nonvacuous :
+  snd (c06_run (init_server (mkCfg 100 80 false 0 false false false 999 false 0)) defer_witness_ops)
   = [EvPtr 0 1 84 77; EvPtr 0 0 31 3].
 Proof. exact defer_fixed_witness. Qed.
+
+(* regression witness: the former code (variant bit 0) delivered the release and THEN a motion
+   to the stale drag position *)
+Theorem C06_ptr_coalescing_legacy_witness :
+  exists ops, snd (c06_run (init_server (mkCfg 100 80 false 0 false false false 999 false 1)) ops)
+              = [EvPtr 0 1 84 77; EvPtr 0 0 31 3; EvPtr 0 0 72 74].
+Proof. exists defer_witness_ops. exact defer_stale_witness. Qed.
